@@ -244,6 +244,10 @@ def job_gmm_lengths():
     # covariance shape / PSD / proportions
     extra = [("non-square covariance", lambda: data.draw_gmm(5, [np.zeros(2), np.ones(2)], [np.ones((2, 3)), np.ones((2, 3))], [0.5, 0.5], 0), True),
              ("negative eigenvalue", lambda: data.draw_gmm(5, [np.zeros(2), np.ones(2)], [np.array([[1.0, 2.0], [2.0, 1.0]]), np.eye(2)], [0.5, 0.5], 0), True),
+             ("indefinite covariance with a zero leading minor diag(0,-1)", lambda: data.draw_gmm(5, [np.zeros(2), np.ones(2)], [np.diag([0.0, -1.0]), np.eye(2)], [0.5, 0.5], 0), True),
+             ("indefinite 3x3 covariance with a singular leading block", lambda: data.draw_gmm(5, [np.zeros(3), np.ones(3)], [np.eye(3), np.array([[0.0, 0.0, 0.0], [0.0, 1.0, 2.0], [0.0, 2.0, 1.0]])], [0.5, 0.5], 0), True),
+             ("indefinite diag(1,0,-1)", lambda: data.draw_gmm(5, [np.zeros(3), np.ones(3)], [np.diag([1.0, 0.0, -1.0]), np.eye(3)], [0.5, 0.5], 0), True),
+             ("singular positive semi-definite covariance accepted", lambda: data.draw_gmm(5, [np.zeros(2), np.ones(2)], [np.array([[4.0, 2.0], [2.0, 1.0]]), np.eye(2)], [0.5, 0.5], 0), False),
              ("zero proportion", lambda: data.draw_gmm(5, [np.zeros(2), np.ones(2)], [np.eye(2), np.eye(2)], [0.0, 1.0], 0), True),
              ("proportions summing to 0.9", lambda: data.draw_gmm(5, [np.zeros(2), np.ones(2)], [np.eye(2), np.eye(2)], [0.5, 0.4], 0), True),
              ("negative variance d=1", lambda: data.draw_gmm(5, [[0.0], [1.0]], [[-1.0], [1.0]], [0.5, 0.5], 0), True),
